@@ -255,6 +255,10 @@ func BuildSelect(query *Query, slct *sqlparser.Select) error {
 	if err != nil {
 		return err
 	}
+	if slct.Having != nil && len(query.groupDefinition) == 0 {
+		// HAVING is evaluated once per group: without GROUP BY it would be skipped
+		return UNSUPPORTED_CASE.Extend("HAVING requires GROUP BY")
+	}
 	query.havingDefinition = slct.Having
 	query.selectDefinition = *slct.SelectExprs
 	query.whereDefinition = slct.Where
